@@ -313,8 +313,16 @@ func runReplayTest(p *Program, fn *ssa.Function, src, marker string) (bool, stri
 	cmd.Env = append(os.Environ(), "GOFLAGS=-mod=mod", "GOPROXY=off", "GOSUMDB=off", "GOTOOLCHAIN=local")
 	out, _ := cmd.CombinedOutput()
 	text := string(out)
+	found := strings.Contains(text, marker)
 	if len(text) > 4000 {
-		text = text[:4000]
+		// keep the verdict lines, they may come after a lot of logging
+		var keep []string
+		for _, l := range strings.Split(text, "\n") {
+			if strings.HasPrefix(l, "REPLAY-") {
+				keep = append(keep, l)
+			}
+		}
+		text = text[:4000] + "\n...\n" + strings.Join(keep, "\n")
 	}
-	return strings.Contains(text, marker), text
+	return found, text
 }
